@@ -49,6 +49,8 @@ pub struct Outcome {
     pub nontrivial: bool,
     /// sub-checks that were excluded by construction in this case
     pub excluded: u32,
+    /// executions enumerated inside this case (e.g. one per injected fault)
+    pub sub_evals: u64,
 }
 
 impl Outcome {
@@ -490,7 +492,7 @@ pub fn worker_main(prop: &dyn Prop, tier: Tier, w: u64, nw: u64, from: u64, max_
                 return 3;
             }
             None => {
-                let mut r = json!({"idx": idx, "nt": o.nontrivial, "fp": format!("{fp:016x}"), "labels": o.labels, "ex": o.excluded});
+                let mut r = json!({"idx": idx, "nt": o.nontrivial, "fp": format!("{fp:016x}"), "labels": o.labels, "ex": o.excluded, "sub": o.sub_evals});
                 if want_sample {
                     r["case"] = case;
                 }
@@ -699,7 +701,7 @@ fn shrink_in_children(
     let mut best_v = first;
     let start = Instant::now();
     let mut iters = 0;
-    'outer: while iters < 300 && start.elapsed() < Duration::from_secs(240) {
+    'outer: while iters < 300 && start.elapsed() < Duration::from_secs(75) {
         if !tree.simplify() {
             break;
         }
@@ -715,7 +717,7 @@ fn shrink_in_children(
             if !tree.complicate() {
                 break 'outer;
             }
-            if iters >= 300 || start.elapsed() >= Duration::from_secs(240) {
+            if iters >= 300 || start.elapsed() >= Duration::from_secs(75) {
                 break 'outer;
             }
         }
@@ -826,6 +828,7 @@ pub fn supervise(prop: &dyn Prop, tier: Tier) -> RunResult {
     let mut labels: BTreeMap<String, u64> = BTreeMap::new();
     let mut samples: Vec<Value> = Vec::new();
     let mut excluded = 0u64;
+    let mut sub_evals = 0u64;
     let mut known_hits: BTreeMap<String, (u64, String)> = BTreeMap::new();
     let mut found: Option<Found> = None;
     let mut inconclusive: Option<String> = None;
@@ -858,6 +861,7 @@ pub fn supervise(prop: &dyn Prop, tier: Tier) -> RunResult {
                                 nontrivial.insert(fp);
                             }
                             excluded += v["ex"].as_u64().unwrap_or(0);
+                            sub_evals += v["sub"].as_u64().unwrap_or(0);
                             if let Some(ls) = v["labels"].as_array() {
                                 for l in ls {
                                     if let Some(l) = l.as_str() {
@@ -1045,6 +1049,7 @@ pub fn supervise(prop: &dyn Prop, tier: Tier) -> RunResult {
             "exhaustive": false,
             "random_cases_planned": list.random,
             "excluded_by_construction": excluded,
+            "executions_enumerated_inside_cases": sub_evals,
             "known_finding_hits": known_hits.iter().map(|(k, v)| json!({"sig": k, "count": v.0})).collect::<Vec<_>>(),
             "workers": nw,
             "build_config": build_config(),
@@ -1122,6 +1127,7 @@ fn merge_and_write_evidence(path: &std::path::Path, mut ev: Value) {
                 ev["coverage"]["distinct_nontrivial"] = json!(a.max(b));
                 add("evaluations", &mut ev);
                 add("excluded_by_construction", &mut ev);
+                add("executions_enumerated_inside_cases", &mut ev);
                 let mut cfgs = match &oc["configs_covered"] {
                     Value::Array(a) => a.clone(),
                     _ => vec![oc["build_config"].clone()],
